@@ -50,6 +50,10 @@ pub mod c22;
 #[cfg(feature = "inter-task-wakeup")]
 #[path = "/verif/harness/c23.rs"]
 pub mod c23;
+// C08: the real Rust generator's output for kani/rustgen_async/probe.wit, mounted only when the C08 check asks for it
+#[cfg(bytecodealliance_wit_bindgen_verif_c08)]
+#[path = "/verif/harness/c08.rs"]
+pub mod c08;
 #[cfg(kani)]
 #[path = "/verif/harness/btmodel.rs"]
 pub mod btmodel;
